@@ -21,6 +21,7 @@ type GenCfg struct {
 	Reqs          bool // draw requiredness (else default only)
 	AllPresent    bool // values carry every declared field
 	Aliases       bool // api.key aliases
+	Lookalike     bool // a sixth of the first structs get 20..44 more fields with look-alike names (hash-stored key map)
 	Recursive     bool // structs may reference themselves / earlier structs through optional fields and containers
 	MaxStructs    int  // default 4
 	NoSet         bool
@@ -209,6 +210,20 @@ func GenUniverse(t *rapid.T, cfg GenCfg) *Universe {
 				}
 			}
 			sd.Fields = append(sd.Fields, fd)
+		}
+		if cfg.Lookalike && i == 0 && rapid.IntRange(0, 5).Draw(t, "lookalike") == 0 {
+			// a wide struct of look-alike keys (same length, two different bytes per position): the key map of such a struct is
+			// a hash table with open addressing rather than a trie, in Go and in the native converter
+			n := rapid.IntRange(20, 44).Draw(t, "nLookalike")
+			salt := rapid.IntRange(0, 127).Draw(t, "lookalikeSalt")
+			for k := 0; k < n; k++ {
+				w := (k*37 + salt) & 127
+				name := []byte("nxxxxxxx")
+				for b := 0; b < 7; b++ {
+					name[1+b] = "ab"[(w>>b)&1]
+				}
+				sd.Fields = append(sd.Fields, FieldDef{ID: genFieldID(t, usedID, cfg), Name: string(name), T: &Type{K: I32}})
+			}
 		}
 		u.Structs = append(u.Structs, sd)
 	}
